@@ -66,6 +66,7 @@ ELIDED_RP = {'_vertices': 'pix', 'vertices': 'pix', 'exterior_angle': 'qty', 'in
              'inradius': 'atom', 'perimeter': 'atom', 'side_length': 'atom'}
 META_KEYS = ['label', 'comment', 'name', 'include', 'tag', 'text', 'source', 'frame']
 VIS_KEYS = ['color', 'linewidth', 'fontsize', 'fill', 'symbol', 'marker', 'dashlist', 'fontname']
+DS9_SYMBOLS = ['circle', 'box', 'diamond', 'x', 'cross', 'arrow', 'boxcircle']
 WORDS = ['a', 'bb', 'Crab', 'src 1', 'x_y', 'green', 'red', '', 'Zeta', 'tick']
 
 
@@ -118,6 +119,9 @@ def build(spec, world=None):
         return bool(spec['v'])
     if t == 'fn':
         return getattr(operator, spec['v'])
+    if t == 'ds9sym':
+        from regions.io.ds9.core import ds9_valid_symbols
+        return ds9_valid_symbols[spec['v']]
     if t == 'pix':
         return PixCoord(unfl(spec['x']), unfl(spec['y']))
     if t == 'pixarr':
@@ -222,6 +226,18 @@ class Walker:
             return {'e': 0} if elide else numj(o)
         if callable(o) and not isinstance(o, Region):
             return {'fn': getattr(o, '__name__', repr(o))}
+        if type(o).__module__.startswith('matplotlib') or type(o).__name__ == '_DS9MarkerPath':
+            # a matplotlib Path (the DS9 point symbols boxcircle / arrow) has no `__eq__`: it is compared
+            # by identity, like a function object.  The DS9 constants are named; any other Path object
+            # (e.g. a deep copy of a constant) is a different identity.
+            from regions.io.ds9.core import ds9_valid_symbols
+            for nm, c in ds9_valid_symbols.items():
+                if o is c:
+                    return {'fn': 'ds9marker:' + nm}
+            self.paths = getattr(self, 'paths', {})
+            k = self.paths.setdefault(id(o), len(self.paths))
+            self.keep.append(o)
+            return {'fn': f'other-path-object-{k}'}
         if isinstance(o, np.ndarray):
             if elide:
                 return self.node(o, 'array', [])
@@ -704,6 +720,8 @@ class Gen:
             return {'t': 'list', 'v': [{'t': 'str', 'v': self.word()} for _ in range(r.randint(1, 3))]}
         if key == 'dashlist':
             return {'t': 'list', 'v': [{'t': 'int', 'v': r.randint(1, 9)} for _ in range(2)]}
+        if key == 'marker':
+            return {'t': 'ds9sym', 'v': r.choice(DS9_SYMBOLS)}
         if key in ('linewidth', 'fontsize'):
             return r.choice([{'t': 'int', 'v': r.randint(1, 12)}, {'t': 'num', 'v': fl(r.randint(1, 40) / 4.0)}])
         return {'t': 'str', 'v': self.word()}
@@ -884,6 +902,12 @@ class Check(PropertyCheck):
                         cases.append(self.gen_eq(g, cls, which, None, m, descend=False))
                 for what in ('class', 'unit', 'unit', 'same', 'same', 'nan', 'refl'):
                     cases.append(self.gen_eq(g, cls, what, descend=False))
+                # DS9 point symbols (incl. the two matplotlib Path constants) in `visual`
+                for sym in DS9_SYMBOLS:
+                    cases.append(self.gen_copy(g, cls, marker=sym))
+                    cases.append(self.gen_eq(g, cls, 'marker', None, (sym, None), descend=False))
+                    cases.append(self.gen_eq(g, cls, 'marker', None,
+                                             (sym, rng.choice([x for x in DS9_SYMBOLS if x != sym])), descend=False))
                 # unit-variation family: every ordered pair of units x integer multiples, one quantity
                 # at a time and all at once
                 qfields = [nm for nm, k in ALL[cls] if k in ('ang', 'posang')]
@@ -900,6 +924,9 @@ class Check(PropertyCheck):
                     # perturbations of a field of a nested operand (any depth)
                     for _ in range(12):
                         cases.append(self.gen_eq(g, cls))
+        for _ in range(2 if tier == 'quick' else 20):
+            for sym in DS9_SYMBOLS:
+                cases.append(self.gen_parsed_copy(g, sym))
         for _ in range(150 if tier == 'quick' else 4000):
             cases.append(self.gen_regions(g))
         for _ in range(250 if tier == 'quick' else 6000):
@@ -976,9 +1003,16 @@ class Check(PropertyCheck):
             return {'do': 'mut', 'at': at, 'op': 'setidx', 'idx': 0, 'val': {'t': 'str', 'v': g.word()}}
         raise AssertionError(kind)
 
-    def gen_copy(self, g, cls):
+    def gen_copy(self, g, cls, marker=None):
         r = g.rng
         spec = g.region(cls)
+        if marker is not None:
+            tgt = spec
+            if spec.get('visual') is None:              # compound with default visual: use region1's
+                while tgt.get('visual') is None:
+                    tgt = get_param(tgt, 'region1')
+            tgt['visual']['v'] = [kv for kv in tgt['visual']['v'] if kv[0] != 'marker'] + \
+                [['marker', {'t': 'ds9sym', 'v': marker}]]
         how = r.choice(['copy', 'copy', 'deepcopy', 'changes', 'changes'])
         prog = [{'do': 'new', 'dst': 'a', 'val': spec}]
         changes = []
@@ -1023,6 +1057,41 @@ class Check(PropertyCheck):
             prog.append({'do': 'eq', 'a': {'root': 'a', 'path': []}, 'b': {'root': 'b', 'path': []}})
         return {'kind': 'copy', 'how': how, 'cls': cls, 'side': None if bogus else side, 'prog': prog,
                 'changed': [k for k, _ in changes]}
+
+    # -- regions that come out of the DS9 reader, one per point symbol
+    def gen_parsed_copy(self, g, sym):
+        r = g.rng
+        text = f'image\npoint({r.randint(1, 90)},{r.randint(1, 90)}) # point={sym}'
+        if r.random() < 0.5:
+            text += f' color={r.choice(["red", "green", "blue"])} text={{{r.choice(["a", "src 1"])}}}'
+        how = r.choice(['copy', 'copy', 'deepcopy', 'changes'])
+        ra, rb = {'root': 'a', 'path': []}, {'root': 'b', 'path': []}
+        prog = [{'do': 'new', 'dst': 'P', 'val': {'t': 'parsed', 'text': text}},
+                {'do': 'item', 'src': {'root': 'P', 'path': []}, 'idx': 0, 'dst': 'a'}]
+        changes = []
+        if how == 'deepcopy':
+            prog.append({'do': 'deepcopy', 'src': ra, 'dst': 'b'})
+        else:
+            if how == 'changes':
+                changes = [r.choice([['center', g.fresh_like('pix')], ['meta', g.meta('rmeta')]])]
+            prog.append({'do': 'copy', 'src': ra, 'dst': 'b', 'changes': changes})
+        prog += [{'do': 'eq', 'a': ra, 'b': rb}, {'do': 'eq', 'a': rb, 'b': ra}, {'do': 'ne', 'a': ra, 'b': rb},
+                 {'do': 'snap', 'tag': 'after_copy'}]
+        vis = {'root': 'b', 'path': ['visual']}
+        for _ in range(r.randint(1, 4)):
+            c = r.random()
+            if c < 0.4:
+                prog.append({'do': 'mut', 'at': vis, 'op': 'set', 'key': 'marker',
+                             'val': {'t': 'ds9sym', 'v': r.choice(DS9_SYMBOLS)}})
+            elif c < 0.6:
+                prog.append({'do': 'mut', 'at': vis, 'op': 'del', 'key': 'marker'})
+            elif c < 0.8:
+                prog.append({'do': 'mut', 'at': vis, 'op': 'set', 'key': 'color', 'val': {'t': 'str', 'v': g.word()}})
+            else:
+                prog.append({'do': 'mut', 'at': vis, 'op': 'clear'})
+        prog += [{'do': 'snap', 'tag': 'after_mut'}, {'do': 'eq', 'a': ra, 'b': rb}]
+        return {'kind': 'copy', 'how': how, 'cls': 'PointPixelRegion', 'side': 'b', 'prog': prog,
+                'changed': [k for k, _ in changes], 'parsed': sym}
 
     # -- equality under single-field perturbations
     def perturb_num(self, g, x, mode):
@@ -1082,6 +1151,18 @@ class Check(PropertyCheck):
                     un2 = r.choice([x for x in ['deg', 'arcmin', 'arcsec', 'rad'] if x != q['unit']])
                     exact = Fraction(v) * UNIT_FACTOR[q['unit']] / UNIT_FACTOR[un2]
                     set_param(tgt, n, {'t': 'qty', 'v': fl(float(exact)), 'unit': un2})
+        if what == 'marker':
+            sa, sb = fmode
+            info.update(mode='same' if sb is None else 'value', key='marker', syms=[sa, sb])
+
+            def setm(spec, sym):
+                t2 = spec
+                while t2.get('visual') is None:
+                    t2 = get_param(t2, 'region1')
+                t2['visual']['v'] = [kv for kv in t2['visual']['v'] if kv[0] != 'marker'] + \
+                    [['marker', {'t': 'ds9sym', 'v': sym}]]
+            setm(a, sa)
+            setm(b, sa if sb is None else sb)
         if what == 'unitsweep':
             # the SAME physical angle written in two units (fmode = (unit_a, unit_b, n)): integer
             # multiples, exact in binary floating point in both units (except for rad)
@@ -1544,14 +1625,17 @@ class Check(PropertyCheck):
                            'cls': case.get('cls')}, **kw))
         eqs = [(i, st, out[i]) for i, st in enumerate(prog) if st['do'] in ('eq', 'ne')]
         if case['kind'] == 'copy':
-            if out[1] != 'ok':
-                if 'bogus' in case['changed'] and out[1] == 'TypeError':
+            ci = next(i for i, st in enumerate(prog) if st['do'] in ('copy', 'deepcopy'))
+            if any(isinstance(o, str) and o != 'ok' for o in out[:ci]):
+                return V       # construction refused
+            if out[ci] != 'ok':
+                if 'bogus' in case['changed'] and out[ci] == 'TypeError':
                     return V
-                bad('copy_raises', out[1])
+                bad('copy_raises', out[ci])
                 return V
-            a_eq_b, b_eq_a, a_ne_b = out[2], out[3], out[4]
+            a_eq_b, b_eq_a, a_ne_b = out[ci + 1], out[ci + 2], out[ci + 3]
             same_expected = case['how'] != 'changes'
-            if isinstance(a_eq_b, bool) and isinstance(b_eq_a, bool) and a_eq_b != b_eq_a and 2 not in real['fragile']:
+            if isinstance(a_eq_b, bool) and isinstance(b_eq_a, bool) and a_eq_b != b_eq_a and (ci + 1) not in real['fragile']:
                 bad('eq_asymmetric', f'a==b {a_eq_b} but b==a {b_eq_a} (copy with changes)')
             if isinstance(a_eq_b, bool) and a_ne_b != (not a_eq_b):
                 bad('ne_not_negation', f'a==b {a_eq_b} a!=b {a_ne_b}')
@@ -1612,8 +1696,10 @@ class Check(PropertyCheck):
             if frag:
                 return V
             expect = None
-            if what in ('same', 'unit', 'refl'):
+            if what in ('same', 'unit', 'refl') or (what == 'marker' and info['mode'] == 'same'):
                 expect = True
+            elif what == 'marker':
+                expect = False
             elif what in ('meta', 'visual', 'class'):
                 expect = False
             elif what == 'param':
